@@ -25,7 +25,8 @@ RULE = ('Evaluation = one stage/query call made on a real CeiloChunk in some rea
 ASSUMPTIONS = ['ampycloud is deterministic given its full internal state (checked by C09), which makes sharing the '
                'subtree of identical states sound']
 REQUIRED = ['grouping_after_layering', 'reslicing_after_grouping', 'repeated_stage', 'scene_with_merge', 'scene_with_split',
-            'scene_without_groups', 'closure_reached', 'refusal_prerequisite_missing']
+            'scene_without_groups', 'closure_reached', 'refusal_prerequisite_missing',
+            'scene_two_heights_group_above_trimodal']
 SIZES = {'quick': 160, 'thorough': 3000}
 DEPTH = {'quick': 9, 'thorough': 14}
 MAX_STATES = 300
@@ -40,11 +41,14 @@ def plan(tier, seed):
         if fam in ('bimodal', 'chain'):
             k.update({'lookback': 100, 'bins': 0})
         out.append({'fam': fam, 's': seed, 'p': NUM, 'i': i, 'k': k, 'depth': DEPTH[tier]})
+    for i in range(6 if tier == 'quick' else 100):
+        out.append({'fam': 'tri_plus_two', 's': seed, 'p': NUM, 'i': 100000 + i, 'k': {}, 'depth': DEPTH[tier]})
+        out.append({'fam': 'manysplit', 's': seed, 'p': NUM, 'i': 200000 + i, 'k': {}, 'depth': 6})
     return out
 
 
 def weight(d):
-    return {'bimodal': 3.0, 'chain': 2.0}.get(d['fam'], 1.0)
+    return {'bimodal': 3.0, 'chain': 2.0, 'manysplit': 10.0, 'tri_plus_two': 4.0}.get(d['fam'], 1.0)
 
 
 def apply(ch, op):
@@ -163,6 +167,8 @@ def check(desc):
             tags.add('scene_with_split')
         if can.n_groups == 0:
             tags.add('scene_without_groups')
+        if desc['fam'] == 'tri_plus_two' and (can.groups['ncomp'] == 3).any() and (can.groups['ncomp'] == 2).any():
+            tags.add('scene_two_heights_group_above_trimodal')
 
         def predicted(st):
             s, g, l = st
